@@ -1,6 +1,6 @@
 #!/usr/bin/env python3
 """Regenerates MANIFEST.json from checks.json + manifest_meta.json (texts per property)."""
-import json, os
+import json, os, subprocess
 V = os.path.dirname(os.path.abspath(__file__))
 conf = {}
 base = os.path.join(V, "harness", "checks")
@@ -33,6 +33,8 @@ eng = {}
 for c in checks:
     eng.setdefault(c["engine"], []).append(c["property_id"])
 engines = [{"name": k, "path": meta["engine_paths"].get(k.split()[0], "harness"), "serves_properties": v, "kind_free_text": meta["engine_kinds"].get(k.split()[0], "")} for k, v in sorted(eng.items())]
+log = subprocess.run(["git", "-C", "/repo", "log", "--format=%h %s"], stdout=subprocess.PIPE, text=True).stdout.splitlines()
+meta["hooks"]["source_commits"] = [l.split()[0] for l in log if l.split(" ", 1)[1].startswith("verif hook")]
 man = {
     "version": 1,
     "setup_cmd": "./setup.sh",
